@@ -389,3 +389,72 @@ func TestCloseWhileRunnerServes(t *testing.T) {
 		kit.Rec.Case(fmt.Sprintf("close-while-serving n=%d", n), true, "close-while-runner-serves")
 	})
 }
+
+// ---- distinct component types that share package path AND type name (declared locally in different functions) ----
+
+func localPlainWorker() any {
+	type worker struct{ N int }
+	return &worker{N: 1}
+}
+
+func localClosingWorker(c *Closer) any {
+	type worker struct{ *Closer }
+	return &worker{c}
+}
+
+func localClosingJob(c *Closer) any {
+	type job struct{ *Closer }
+	return &job{c}
+}
+
+func localPlainJob() any {
+	type job struct{ N int }
+	return &job{N: 2}
+}
+
+// TestLocalTypesSharingAName: containers of one process whose components have different types with the same package
+// path and type name - one of them a closer, the other not, in both orders. Whether something is a closer is a
+// matter of its own type in its own container.
+func TestLocalTypesSharingAName(t *testing.T) {
+	kit.Rec.Rule(rule)
+	open := func(name string) *Closer {
+		c := &Closer{name: name, gate: make(chan struct{})}
+		close(c.gate)
+		return c
+	}
+	runAndClose := func(what string, comps ...any) {
+		out := kit.RunApp(app.SetComponents(comps...))
+		if !out.OK() {
+			kit.DumpReplay("c14-local-types", map[string]any{"step": what, "outcome": out.String()})
+			t.Fatalf("C14: %s: start failed: %v", what, out)
+		}
+		if p := kit.Protect(func() { out.App.Close() }); p != nil {
+			kit.DumpReplay("c14-local-types", map[string]any{"step": what, "panic": fmt.Sprint(p)})
+			t.Fatalf("C14: %s: Close panicked: %v", what, p)
+		}
+	}
+	expect := func(what string, cs ...*Closer) {
+		for _, c := range cs {
+			if calls := atomic.LoadInt32(&c.calls); calls != 1 {
+				kit.DumpReplay("c14-local-types", map[string]any{"step": what, "closer": c.name, "calls": calls})
+				t.Fatalf("C14: %s: closer %q was invoked %d times, exactly once expected", what, c.name, calls)
+			}
+		}
+	}
+	// pair 1: the plain type is seen first, the closing type of the same name in a later container
+	pk := open("pkg-level-1")
+	runAndClose("container 1 (plain local worker)", localPlainWorker(), pk)
+	expect("container 1", pk)
+	w, pk2 := open("local-worker"), open("pkg-level-2")
+	runAndClose("container 2 (closing local worker)", localClosingWorker(w), pk2)
+	expect("container 2", w, pk2)
+	// pair 2: the other way round
+	j, pk3 := open("local-job"), open("pkg-level-3")
+	runAndClose("container 3 (closing local job)", localClosingJob(j), pk3)
+	expect("container 3", j, pk3)
+	pk4 := open("pkg-level-4")
+	runAndClose("container 4 (plain local job)", localPlainJob(), pk4)
+	expect("container 4", pk4)
+	kit.Rec.Case("local types sharing a name: plain then closing", true, "same-named-local-types")
+	kit.Rec.Case("local types sharing a name: closing then plain", true, "same-named-local-types")
+}
